@@ -191,18 +191,32 @@ def _sym(x):
     return sympy.Integer(x)
 
 
+def _mixed(x, flip=0):
+    """every other integer (by position) a sympy Integer: the same value in both spellings inside one list"""
+    import sympy
+
+    if isinstance(x, list):
+        return [_mixed(y, (i + flip) % 2) for i, y in enumerate(x)]
+    if isinstance(x, bool) or not isinstance(x, int):
+        return x
+    return sympy.Integer(x) if flip else x
+
+
 def _mk(xs, mode):
     """mode: 0 eager list of Python ints, 1 lazy list, 2 / 3 the same with every integer a sympy Integer
     (what number literals push; Python ints are what inputs and most builtins produce)."""
     if mode in (2, 3):
         return _mk(_sym(xs), mode - 2)
+    if mode in (4, 5):
+        return _mk(_mixed(xs, 1) if isinstance(xs, list) else xs, mode - 4)
     if mode and isinstance(xs, list):
         return LazyList(iter([(_mk(x, 0) if isinstance(x, list) else x) for x in xs]))
     return [(list(x) if isinstance(x, list) else x) for x in xs] if isinstance(xs, list) else xs
 
 
-MODES = (0, 1, 2, 3)
-MODE_TAG = {0: "eager", 1: "lazy", 2: "eager, sympy Integers", 3: "lazy, sympy Integers", False: "eager", True: "lazy"}
+MODES = (0, 1, 2, 3, 4, 5)
+MODE_TAG = {0: "eager", 1: "lazy", 2: "eager, sympy Integers", 3: "lazy, sympy Integers", 4: "eager, Python ints and sympy Integers mixed",
+            5: "lazy, Python ints and sympy Integers mixed", False: "eager", True: "lazy"}
 
 
 def check(name, args, lazy):
@@ -393,4 +407,4 @@ def replay(case):
         return None
     if need == 2 and not (isinstance(args[1], int) or (isinstance(args[1], list) and all(isinstance(x, int) for x in args[1]))):
         return None
-    return check(name, args, int(case.get("lazy") or 0) if case.get("lazy") in (0, 1, 2, 3, True, False, None) else 0)
+    return check(name, args, int(case.get("lazy") or 0) if case.get("lazy") in (0, 1, 2, 3, 4, 5, True, False, None) else 0)
